@@ -8,9 +8,10 @@ TRUSTED_BASE = [
     "extraction: Require Extraction + ExtrOcamlBasic only (Extract Inductive bool/option/unit/list/prod/sumbool/sumor; Extract Inlined Constant andb/orb); nat, positive, N stay Coq inductives; OCaml 4.13.1",
     "correspondence machinery: driver/main.ml, driver/units.ml (parsing, printing), harness/*.cpp, vt/*.py, g++ 12 / clang++ 14",
     "hand-written model of the C++ (coq/Model/*.v), tied to /repo's working tree by the correspondence run of this check",
-    "leaf layer (bitWidth, contain, BitArrayT, StreamBufferT, write<W>/read<W>, TaskListT; checks C08, C09, C10, C12, C13, C18, C20): additionally tied by proof - tools/leafcode.py transcribes clang 14's typed AST "
+    "leaf layer (bitWidth, contain, BitArrayT, StreamBufferT, write<W>/read<W>, TaskListT, StaticArrayT<uint8_t>, PlanT append/remove/linkTask/operator bool; checks C08, C09, C10, C12, C13, C18, C20): additionally tied by proof - tools/leafcode.py transcribes clang 14's typed AST "
     "of the tree under test into coq/Generated/LeafCode.v, coq/Model/Cxx.v fixes the C++ integer semantics of that language, coq/Proofs/Leaf*.v prove the translated bodies equal to the model; "
-    "trusted there: clang's AST, the transcription, Cxx.v's reading of C++, and that a body instantiated at one template argument with the parameter kept symbolic is the body for every argument of the same index/item type",
+    "trusted there: clang's AST, the transcription, Cxx.v's reading of C++, and that a body instantiated at one template argument with the parameter kept symbolic is the body for every argument of the same index/item type; for StaticArrayT / PlanT also the translator's substitution of accessors and inlining of callee bodies (tail-position returns only), "
+    "and that PlanDataT's TaskListT and StaticArrayT<TaskLink> share the capacity Args::TASK_CAPACITY (the constants environment pl_consts of the theorems)",
     "generated facts (C17): tools/initfacts.py over clang's JSON AST",
 ]
 
